@@ -274,7 +274,7 @@ func (c *checker) run(id string) int {
 		}
 		// vacuity
 		for _, l := range prog.ReachLabels(h) {
-			if rep.Reached[l] == 0 {
+			if rep.Reached[l] == 0 && rep.Reached["!"+l] == 0 {
 				inconcl = append(inconcl, fmt.Sprintf("%s: vacuous: label %q reached on no feasible path", h, l))
 			}
 		}
